@@ -25,6 +25,8 @@
 EXTENDS Integers, Sequences, FiniteSets, TLC, SequencesExt
 
 VARIABLE Owner                     \* owned field "Type.field" -> service (chosen once, never changes)
+CONSTANTS LiftPaths,               \* a child's sub-plans get the child's name prepended to their path (FALSE: forgotten)
+          InOrder                  \* sub-plan result i is merged into target i (FALSE: into target n+1-i)
 
 Owned == {"Query.users", "Query.user1", "Query.nobody", "User.secret", "User.device", "Device.temp", "Device.owner"}
 FieldType == [x \in {"Query.users", "Query.user1", "Query.nobody", "Device.owner"} |-> "User"] @@ [x \in {"User.device"} |-> "Device"]
@@ -72,7 +74,7 @@ AfterOf(t, mine, s) ==
   FlattenSeq([i \in DOMAIN mine |->
      IF IsObj(t, mine[i].f)
      THEN LET cp == Plan(FieldType[t \o "." \o mine[i].f], mine[i].sub, s) IN
-          [j \in DOMAIN cp.after |-> [path |-> <<mine[i].f>> \o cp.after[j].path, plan |-> cp.after[j].plan]]
+          [j \in DOMAIN cp.after |-> [path |-> (IF LiftPaths THEN <<mine[i].f>> ELSE <<>>) \o cp.after[j].path, plan |-> cp.after[j].plan]]
      ELSE <<>>])
 Plan(t, sels, s) ==
   LET mine == Mine(t, sels, s)
@@ -84,10 +86,7 @@ Plan(t, sels, s) ==
       after |-> AfterOf(t, mine, s) \o hops]
 \* the root plan belongs to the gateway itself: it serves nothing
 Coordinator == "gateway"
-RootPlan(sels) ==
-  LET owners == SetToSortSeq({Owner["Query." \o sels[i].f] : i \in DOMAIN sels}, LAMBDA a, b : Pos(a) < Pos(b))
-  IN [svc |-> Coordinator, t |-> "Query", local |-> <<>>,
-      after |-> [k \in DOMAIN owners |-> [path |-> <<>>, plan |-> Plan("Query", SelectSeq(sels, LAMBDA x : Owner["Query." \o x.f] = owners[k]), owners[k])]]]
+RootPlan(sels) == Plan("Query", sels, Coordinator)      \* every root field is owned, so all of it is handed on
 
 \* ---- the executor
 \* what service s returns for object o and local selections (it only knows its own fields)
@@ -127,7 +126,8 @@ ApplyAfter(results, afters, i) ==
   IF i > Len(afters) THEN results
   ELSE LET a == afters[i]
            keys == Targets(results, a.path)
-           sub == IF keys = <<>> THEN <<>> ELSE Run(a.plan, keys).a IN
+           sub0 == IF keys = <<>> THEN <<>> ELSE Run(a.plan, keys).a
+           sub == IF InOrder THEN sub0 ELSE Reverse(sub0) IN
        ApplyAfter(Stitch(results, a.path, sub), afters, i + 1)
 Run(p, objs) ==
   LET base == Arr([j \in DOMAIN objs |-> IF p.svc = Coordinator THEN Obj([x \in {"__key"} |-> Str(objs[j])]) ELSE Eval(p.svc, objs[j], p.local)])
